@@ -3,6 +3,15 @@ From Coq Require Import NArith List.
 From Verif Require Import Base.Word Base.Check Model.XdpDhcp Model.XdpDhcpSpec.
 Import ListNotations.
 
+(* frames are written with their zero runs compressed (parsing dominates the evaluation time) *)
+Inductive chunk := B (l : bytes) | Z (n : N).
+Fixpoint unz (c : list chunk) : bytes :=
+  match c with
+  | [] => []
+  | B l :: t => l ++ unz t
+  | Z n :: t => repeat 0%N (N.to_nat n) ++ unz t
+  end.
+
 Definition case := list (op * out).
 Definition mk (c : case) : state * sstate * list (op * out) := (init, sinit, c).
 Definition run_cases (cs : list case) : list (list N) :=
